@@ -702,13 +702,130 @@ def stream_moment(env, rng, counts):
     return ("moment", str(order), tuple(approx), c.rank)
 
 
+def _snapshot(f):
+    """bitwise image of a result (for the history-independence gate)"""
+    obs = Obs(f)
+    parts = [tuple(f.inputs)]
+    if obs.g is not None:
+        parts += [np.asarray(obs.g.white_vec).tobytes(), np.asarray(obs.g.prec_sqrt).tobytes()]
+    for t in obs.ts:
+        parts.append(np.asarray(t.data).tobytes())
+    return parts
+
+
+def stream_history(env, rng, counts):
+    """Multi-step history inside one process: several Gaussians over the SAME ordered input names but with the
+    block sizes permuted (same total size) — and one with a different total — are marginalised over the same
+    (preferably interleaved) subsets of names, substituted, log-normalised, interleaved with each other; every
+    step is checked against the closed form as in the single-step streams, and re-running the first Gaussian's
+    steps after the others (A, B, …, A) must reproduce its first answers bit for bit (results are a pure
+    function of the arguments: no state may be carried between operations)."""
+    nreal = rng.choice([3, 3, 4])
+    rnames = rng.sample(REAL_NAMES, nreal)
+    shapes = [rng.choice([(), (2,), (1, 2), (2,), ()]) for _ in rnames]
+    if len(set(numel(sh) for sh in shapes)) == 1:
+        shapes[0] = (2,) if numel(shapes[0]) == 1 else ()
+    while sum(numel(sh) for sh in shapes) > 6:
+        i = max(range(nreal), key=lambda i: numel(shapes[i]))
+        shapes[i] = ()
+        if len(set(numel(sh) for sh in shapes)) == 1:
+            shapes[(i + 1) % nreal] = (2,)
+    batch = [("b", k, rng.choice([1, 2])) for k in rng.sample(BATCH_NAMES, rng.choice([0, 0, 1]))]
+    slots = ["r"] * nreal + ["b"] * len(batch)
+    rng.shuffle(slots)
+
+    def order_for(shs):
+        it_r, it_b = iter(zip(rnames, shs)), iter(batch)
+        out = []
+        for sl in slots:
+            if sl == "r":
+                k, sh = next(it_r)
+                out.append(("r", k, sh))
+            else:
+                out.append(next(it_b))
+        return out
+    variants = [list(shapes)]
+    for _ in range(8):
+        pshapes = list(shapes)
+        rng.shuffle(pshapes)
+        if all([numel(a) for a in pshapes] != [numel(b) for b in v] for v in variants):
+            variants.append(pshapes)
+        if len(variants) >= 3:
+            break
+    other = list(shapes)
+    other[rng.randrange(nreal)] = (3,)
+    variants.append(other)                       # same names, different total size
+    # subsets of names to integrate: interleaved ones first (first and last real input, ...)
+    subsets = [[rnames[0], rnames[-1]]]
+    if nreal == 4:
+        subsets.append([rnames[0], rnames[2]])
+        subsets.append([rnames[1], rnames[3]])
+    subsets.append(rng.sample(rnames, rng.randint(1, nreal - 1)))
+    subsets.append(list(rnames))
+    cases = []
+    for shs in variants:
+        order = order_for(shs)
+        dim = sum(numel(sh) for sh in shs)
+        c = None
+        for _ in range(40):
+            cand = Case(rng, order, rng.choice([dim, dim + 1]))
+            if all(cand.block_ok(bn) for bn in subsets):
+                c = cand
+                break
+        if c is not None:
+            cases.append(c)
+    if len(cases) < 2:
+        counts("history:gen-failed")
+        return None
+    first = cases[0]
+    sequence = cases + [first]                    # A, B, C, …, A
+    hist = [dict(op="history", names=rnames, subsets=subsets)] + [dict(op="gaussian", **c.describe()) for c in cases]
+    snaps = {}
+    try:
+        for pos, c in enumerate(sequence):
+            for bn in subsets:
+                dim_b = sum(n for k, n in c.layout if k in bn)
+                step_hist = hist + [dict(op="marginal", gaussian_index=min(pos, len(cases)) % len(cases), vars=bn)]
+                try:
+                    _marginal_checks(env, rng, counts, c, bn, dim_b, step_hist)
+                except CaseFail as cf:
+                    cf.kw.setdefault("witness_history", step_hist)
+                    raise
+                if c is first:
+                    g = c.build()
+                    snap = _snapshot(g.reduce(ops.logaddexp, frozenset(bn)))
+                    key = tuple(bn)
+                    if key in snaps and snaps[key] != snap:
+                        raise CaseFail("C13.history-dependent-result", expected="the same arrays as the first time",
+                                       got="different arrays when the same marginal is recomputed after other "
+                                           "Gaussians with the same input names were processed", vars=bn,
+                                       witness_history=step_hist)
+                    snaps.setdefault(key, snap)
+            # a substitution followed by a marginal, and the log-normaliser, interleaved as well
+            kept = [k for k in rnames if k not in subsets[0]]
+            kw = {kept[0]: Tensor(dy_array(rng, c.shapes[kept[0]]))}
+            rest = [k for k in rnames if k != kept[0]]
+            sub = c.build()(**kw)
+            if isinstance(sub, Gaussian) or c12.decompose(sub) is not None:
+                sub.reduce(ops.logaddexp, frozenset(rest[:1]))
+            counts("history:step")
+    except CaseFail:
+        raise
+    counts("history:sequences")
+    counts(f"history:variants:{len(cases)}")
+    return ("history", tuple(rnames), str(slots), str(variants))
+
+
 STREAMS = [("marginal", stream_marginal, 8), ("too-little", stream_too_little, 1), ("integrate", stream_integrate, 3),
            ("mixture", stream_mixture, 2), ("plate", stream_plate, 2), ("moment", stream_moment, 2)]
 
 
-def run_case(env, case_seed, counts):
+def run_case(env, case_seed, counts, stream=None):
     rng = random.Random(case_seed)
-    name, f = rng.choice([(n, f) for n, f, wgt in STREAMS for _ in range(wgt)])
+    if stream == "history":
+        name, f = "history", stream_history
+    else:
+        name, f = rng.choice([(n, f) for n, f, wgt in STREAMS for _ in range(wgt)])
     try:
         key = f(env, rng, counts)
     except Declined as e:
@@ -726,14 +843,14 @@ PY_TEMPLATE = """
 import sys
 sys.path.insert(0, {verif!r})
 from fv.harness import c13
-FAILS = c13.replay_case({case_seed})
+FAILS = c13.replay_case({case_seed}, {stream!r})
 """
 
 
-def replay_case(case_seed):
+def replay_case(case_seed, stream=None):
     env = Env(c12._Quiet(), use_driver=False)
     try:
-        run_case(env, case_seed, lambda *a, **k: None)
+        run_case(env, case_seed, lambda *a, **k: None, stream)
     except CaseFail as cf:
         print("still fails:", cf.name, {k: v for k, v in cf.kw.items() if k != "witness"})
         return True
@@ -744,7 +861,7 @@ def replay(ctx, doc):
     w = doc.get("witness") or {}
     if "case_seed" not in w:
         return True
-    return replay_case(w["case_seed"])
+    return replay_case(w["case_seed"], "history" if w.get("stream") == "history" else None)
 
 
 def report(ctx, cf):
@@ -754,7 +871,8 @@ def report(ctx, cf):
         return
     ctx.fail("input", cf.name, witness=w, expected=cf.kw.get("expected"), got=cf.kw.get("got"),
              detail={k: str(v) for k, v in cf.kw.items() if k not in ("expected", "got")},
-             python=PY_TEMPLATE.format(verif=str(VERIF), case_seed=w["case_seed"]))
+             python=PY_TEMPLATE.format(verif=str(VERIF), case_seed=w["case_seed"],
+                                      stream="history" if w.get("stream") == "history" else None))
 
 
 def inverse_stream(ctx, n):
@@ -788,7 +906,9 @@ def correspond(ctx, use_driver=True, volume=None):
                 "all reals = log-normaliser) incl. sequential-vs-joint and evaluate-vs-integrate commutation; "
                 "too-little-information (rank < dim_b) must raise; Integrate against a Variable / another Gaussian; "
                 "mixture reduce over reals + integer inputs; plate sums of Gaussians / mixtures (completion gate); "
-                "moment matching (mass, mean, covariance).  Non-trivial = the implementation returned a value that "
+                "moment matching (mass, mean, covariance); history stream: sequences A, B, C, A of Gaussians over the same "
+                "ordered input names with permuted block sizes (and one different total size), marginalised over the "
+                "same interleaved subsets, each step checked, and A's answers must be bitwise reproduced after B, C.  Non-trivial = the implementation returned a value that "
                 "was compared; distinct by stream, signature, reduced set and rank.")
     env = Env(ctx, use_driver)
     if env.use_driver:
@@ -804,6 +924,16 @@ def correspond(ctx, use_driver=True, volume=None):
         ctx.count("stream:" + name)
         if key is not None:
             ctx.case(sample=dict(case_seed=seed, stream=name, key=str(key)[:200]), nontrivial_key=key)
+    for _ in range(40 if ctx.tier == "quick" else 900):
+        seed = ctx.rng.getrandbits(48)
+        try:
+            key, name = run_case(env, seed, ctx.count, stream="history")
+        except CaseFail as cf:
+            report(ctx, cf)
+            continue
+        ctx.count("stream:history")
+        if key is not None:
+            ctx.case(sample=dict(case_seed=seed, stream="history", key=str(key)[:200]), nontrivial_key=key)
     ctx.assumptions.append("np.linalg.cholesky / triangular solves / inv are parameters satisfying their defining "
                            "equations; the Lean model takes B^-1 and det B over Rat (checked B*B^-1 = 1 per request)")
     ctx.assumptions.append("the identification of the closed forms with Lebesgue integrals is not proved (the "
@@ -813,10 +943,10 @@ def correspond(ctx, use_driver=True, volume=None):
 def search(ctx, broken):
     env = Env(ctx, use_driver=False)
     before = len([f for f in ctx.failures if f.witness is not None])
-    for _ in range(3000 if ctx.tier == "quick" else 8000):
+    for it in range(3000 if ctx.tier == "quick" else 8000):
         seed = ctx.rng.getrandbits(48)
         try:
-            run_case(env, seed, lambda *a, **k: None)
+            run_case(env, seed, lambda *a, **k: None, "history" if it % 10 == 0 else None)
         except CaseFail as cf:
             report(ctx, cf)
         if len([f for f in ctx.failures if f.witness is not None]) > before:
